@@ -653,6 +653,7 @@ structure MWF (M : Model) (sig : Var → Bool) : Prop where
   fuel : ∀ v, (M.table sig).rk v < FUEL
   meth : ∀ m, methodOK (M.table sig) sig (M.method m) = true
   pol : ∀ c, SoundPolicy (M.cache c)
+  fresh_guard : ∀ c, (M.cache c).staleGuard = false
   noSide : M.openSide = false
 
 def cacheRef (M : Model) (sig : Var → Bool) (s : Nat) (c : CacheId) (k : Key) : Term :=
@@ -660,7 +661,7 @@ def cacheRef (M : Model) (sig : Var → Bool) (s : Nat) (c : CacheId) (k : Key) 
 
 structure GInv (M : Model) (g : Grid) : Prop where
   inv : Inv (M.table g.sigF) g.sigF g.sid g.st
-  cache : ∀ c ks t, g.caches c = some (ks, t) →
+  cache : ∀ c ks t, (ks, t) ∈ g.caches c →
       ∃ k, ks = (M.cache c).keyStored k ∧ t = cacheRef M g.sigF g.sid c k
 
 /-- the reference result of every value operation, straight from the reference recursion -/
@@ -669,7 +670,7 @@ def spec (M : Model) (sig : Var → Bool) (s : Nat) : Op → Res
   | .method m =>
       .val (mkApp (M.method m).fn (((M.method m).reads.map (fr (M.table sig) sig s)) ++
         (M.method m).peek.map (fun p => fr (M.table sig) sig s p.var)))
-  | .cached c k _ _ => .val (cacheRef M sig s c k)
+  | .cached c k _ _ => .val (handback (cacheRef M sig s c k) (guardTerm (M.cache c) s k))
   | .export_ => .unit
   | .inventory => .unit
   | .chunk => .unit
@@ -819,27 +820,23 @@ theorem stepGrid_spec {M : Model} {g : Grid} (hm : MWF M g.sigF) (hg : GInv M g)
   | cached c k force store =>
     simp only [stepGrid]
     split
-    · -- served from the cache
+    · -- served from an existing slot
       rename_i e hhit
-      refine ⟨hg, rfl, rfl, rfl, fun _ h => h, ?_⟩
+      have hsg := hm.fresh_guard c
+      simp only [hsg, Bool.false_eq_true, ↓reduceIte]
+      refine ⟨⟨hg.inv, hg.cache⟩, by first | rfl | trivial, by first | rfl | trivial, by first | rfl | trivial,
+        fun _ h => h, ?_⟩
       intro _
       simp only [spec]
       split at hhit
       · simp at hhit
-      · cases hc : g.caches c with
-        | none => simp [hc] at hhit
-        | some e0 =>
-          simp only [hc, Option.filter] at hhit
-          split at hhit
-          · rename_i hk
-            simp only [Option.some.injEq] at hhit
-            subst hhit
-            obtain ⟨k0, hk0, ht⟩ := hg.cache c e0.1 e0.2 (by rw [hc])
-            rw [hk0] at hk
-            have := hm.pol c k0 k hk
-            rw [ht, cacheRef, cacheRef, this.1, this.2]
-          · simp at hhit
-    · -- computed
+      · have hmem := List.mem_of_find?_eq_some hhit
+        have hk := List.find?_some hhit
+        obtain ⟨k0, hk0, ht⟩ := hg.cache c e.1 e.2 hmem
+        rw [hk0] at hk
+        have := hm.pol c k0 k hk
+        rw [ht, cacheRef, cacheRef, this.1, this.2]
+    · -- built
       have G := getMany_sound g.sid hm.wf FUEL ((M.cache c).reads k) (g.st, gl) hg.inv (fuelOK _)
       refine ⟨⟨G.1, ?_⟩, G.2.2.1, rfl, rfl, fun _ h => Le.isSome G.2.1 h, ?_⟩
       · intro c' ks t hct
@@ -847,8 +844,10 @@ theorem stepGrid_spec {M : Model} {g : Grid} (hm : MWF M g.sigF) (hg : GInv M g)
         · simp only [hst, ↓reduceIte] at hct
           by_cases hcc : c' = c
           · subst hcc
-            simp only [↓reduceIte, Option.some.injEq, Prod.mk.injEq] at hct
-            exact ⟨k, hct.1.symm, by rw [← hct.2, G.2.2.2.1]; rfl⟩
+            simp only [↓reduceIte, List.mem_cons, Prod.mk.injEq] at hct
+            rcases hct with h | h
+            · exact ⟨k, h.1, by rw [h.2, G.2.2.2.1]; rfl⟩
+            · exact hg.cache c' ks t (List.mem_filter.mp h).1
           · simp only [hcc, ↓reduceIte] at hct
             exact hg.cache c' ks t hct
         · simp only [hst, Bool.false_eq_true, ↓reduceIte] at hct
